@@ -126,9 +126,11 @@ def run(ctx):
     xi = base_q.methods["xml_instance"]
     sv = se.methods["get_setvalue_node_for_dynamic_default"]
     for desc, default, dyn in (("absent", None, False), ("empty", "", False), ("static", "42", False), ("dynamic", "now()", True)):
-        for qtype in ("text", "date"):
+        # the other cells of the row do not matter: a calculation and / or a trigger next to the default changes nothing
+        for qtype, extra in (("text", {}), ("date", {}), ("text", {"bind": {"type": "string", "calculate": "1 + 1"}}),
+                             ("text", {"bind": {"type": "string", "calculate": "now()"}, "trigger": "${t}"}), ("text", {"bind": {"type": "string", "relevant": "${a} = 1", "readonly": "true()"}})):
             calls = []
-            q = _mk(ctx, qcls, "q1", default=default, type=qtype, bind={"type": "string"})
+            q = _mk(ctx, qcls, "q1", default=default, type=qtype, **{"bind": {"type": "string"}, **extra})
             survey = Obj(None, {}, name="survey")
             h = hooks({"now()"}, calls)
             survey.attrs["insert_xpaths"] = h["fnname:insert_xpaths"]
@@ -138,7 +140,7 @@ def run(ctx):
             setv = it.call_function(sv, [q], {"survey": survey}, None, sv.node)
             lit = isinstance(inst, NodeVal) and inst.text is not None
             has_sv = isinstance(setv, NodeVal)
-            key = f"default={desc} type={qtype}"
+            key = f"default={desc} type={qtype}" + (f" other cells={sorted((extra.get('bind') or {}).keys() - {'type'}) + (['trigger'] if extra.get('trigger') else [])}" if extra else "")
             if default:
                 r1.check(lit != has_sv and lit == (not dyn), f"xml_instance/setvalue[{key}]", "exactly one of: literal node content (static) or setvalue action (dynamic)",
                          xi.loc(), why_fail=f"literal={lit} setvalue={has_sv}")
